@@ -63,6 +63,34 @@ class Obligation:
         self.info = info or {}
 
 
+_MUTG = {}
+
+
+def mutated_module_globals(module):
+    """names of module-level containers that some function of the module mutates in place
+    (X[...] = ..., X.update/append/add/pop/clear/setdefault(...), del X[...])"""
+    if module.name in _MUTG:
+        return _MUTG[module.name]
+    out = set()
+    mut = {"add", "append", "update", "pop", "clear", "remove", "discard", "extend", "insert", "setdefault", "popitem"}
+    for n in ast.walk(module.tree):
+        if isinstance(n, (ast.Assign, ast.AugAssign)):
+            tg = n.targets if isinstance(n, ast.Assign) else [n.target]
+            for t in tg:
+                if isinstance(t, ast.Subscript) and isinstance(t.value, ast.Name):
+                    out.add(t.value.id)
+        if isinstance(n, ast.Delete):
+            for t in n.targets:
+                if isinstance(t, ast.Subscript) and isinstance(t.value, ast.Name):
+                    out.add(t.value.id)
+        if isinstance(n, ast.Call) and isinstance(n.func, ast.Attribute) and n.func.attr in mut \
+                and isinstance(n.func.value, ast.Name):
+            out.add(n.func.value.id)
+    out &= set(module.global_nodes)
+    _MUTG[module.name] = out
+    return out
+
+
 _QCACHE = {}
 
 
@@ -121,7 +149,12 @@ class PathCtx:
         self.counter[base] = k + 1
         return z3.Const(f"{base}!{k}", sort)
 
+    expand = False      # bounded mode: expand literal-range quantifiers (set by verify_contract)
+
     def assume(self, t):
+        if self.expand and z3.is_expr(t):
+            from .vc import expand_quantifiers
+            t = expand_quantifiers(t)
         if isinstance(t, bool):
             if not t:
                 self.pc.append(z3.BoolVal(False))
@@ -174,6 +207,9 @@ class PathCtx:
     def oblige(self, name, goal, kind="post", info=None):
         if isinstance(goal, bool):
             goal = z3.BoolVal(goal)
+        if self.expand:
+            from .vc import expand_quantifiers
+            goal = expand_quantifiers(goal)
         self.obligations.append(Obligation(name, self.hyps(), goal, self.trace, kind, info))
 
 
@@ -212,7 +248,7 @@ class Explorer:
 BUILTIN_TYPES = {"int", "float", "bool", "str", "list", "dict", "tuple", "set", "object", "slice",
                  "Exception", "AssertionError", "NotImplementedError", "TypeError", "KeyError", "IndexError",
                  "ValueError", "ZeroDivisionError", "AttributeError"}
-BUILTIN_FUNCS = {"type", "len", "range", "enumerate", "zip", "min", "max", "sum", "abs", "isinstance", "print", "eval",
+BUILTIN_FUNCS = {"type", "setattr", "len", "range", "enumerate", "zip", "min", "max", "sum", "abs", "isinstance", "print", "eval",
                  "all", "any", "sorted", "super", "hash", "id", "repr", "round", "getattr", "hasattr", "iter",
                  "next", "reversed", "map", "filter", "open", "issubclass", "callable", "divmod"}
 
@@ -308,6 +344,10 @@ class Interp:
             v = FuncRef(module.functions[name])
         elif name in module.global_nodes:
             v = self.eval(module.global_nodes[name], Frame(None, module, {}))
+            if isinstance(v, (PyList, PyDict, PySet)):
+                v.fresh = False          # module-level containers are pre-existing global heap
+                v.label = f"{module.name}.{name}"
+                v.mutated_global = name in mutated_module_globals(module)
         elif name in module.imports:
             imp = module.imports[name]
             if imp[0] == "module":
@@ -703,7 +743,11 @@ class Interp:
         if n.id in fr.locals:
             return fr.locals[n.id]
         try:
-            return self.module_global(fr.module, n.id)
+            v = self.module_global(fr.module, n.id)
+            if getattr(v, "mutated_global", False):
+                # a module-level container that the module itself mutates is shared state (C19 frame)
+                self.ctx.writes.append(("classattr-read", fr.module.name, n.id))
+            return v
         except KeyError:
             pass
         if n.id in BUILTIN_TYPES:
